@@ -261,7 +261,7 @@ def run(ctx):
         for c, r in zip(cases, rep):
             c["case_seed"] = r["case_seed"]
     else:
-        n = 120 if tier == "quick" else 1400
+        n = 120 if tier == "quick" else 250
         n = int(os.environ.get("C08_N", n))
         import random
         cases = [directed(d["id"]) for d in C07.directed_cases()]
@@ -329,6 +329,10 @@ def run(ctx):
                     stats["agree"] += 1
                 continue
             sig = {"family": "modes", "configs": "S-vs-" + "".join(bad)}
+            # identify the program independently of the case numbering, so that a listed finding covers
+            # exactly this program and query
+            import hashlib as _hl, re as _re
+            sig["program"] = _hl.sha1((_re.sub(r"_[a-z]+\d+", "_N", c["text"]) + "#%d" % k).encode()).hexdigest()[:12]
             detail = "query %d of\n%s\nreference: %s\n" % (k, c["text"], mres) + \
                      "\n".join("%s: %s" % (cf, res[cf]) for cf in c["configs"])
             out.append(core.Finding("violation", sig, detail,
